@@ -167,7 +167,7 @@ def c08(pid, tier, seed):
     fails.sort(key=lambda x: x["n"])
     coverage = dict(states=states, transitions=trans, traces_validated_against_impl=len(runs), records_validated=total,
                     samples=[{"program": runs[0]["program"], "threads": runs[0]["threads"], "schedule": runs[0]["schedule"]}],
-                    clause_counts=st, programs=[{"name": m["name"], "callers": m["callers"], "multi": m["multi"], "ticker": m["tk"], "model_states": m["dist"],
+                    clause_counts=st, programs=len(models), program_list=[{"name": m["name"], "callers": m["callers"], "multi": m["multi"], "ticker": m["tk"], "model_states": m["dist"],
                                                  "schedules": len(m["scheds"])} for m in models][:60],
                     model_leads=lead_notes, trace_conformance=conf,
                     rule="per program TLC explores all interleavings of Sync.tla at lock/notify/spawn/join/wait granularity and checks NoDeadlock, NoTimeoutDependence, SlotOK, CleanEnd; the shortest "
